@@ -4,6 +4,7 @@ Property theorems only; helper lemmas are in `Proofs/C13.lean`.
 -/
 import MahfModel.Proofs.C13
 import MahfModel.Proofs.C13Cycle
+import MahfModel.Proofs.C13Pop
 namespace MahfModel.Props.C13
 open MahfModel.Variation
 
@@ -425,6 +426,301 @@ theorem de_crossover_positionwise (dim : Nat) (mask : List Bool) (mutant base : 
       ∀ i : Nat, r[i]? = mutant[i]? ∨ r[i]? = base[i]? :=
   deCross_positionwise dim mask mutant base h1 h2
 
+
+/-! ## Population level: `recombination()` as a whole, settings, constructors -/
+
+/-- A `recombination()` run that does not panic is the frame over the results of its `recombine`
+calls, one per pair. -/
+theorem recombination_is_frame {β W : Type} (rec : β → β → W → Option (OptPair β)) (ps : List β) (ws : List W)
+    (out : List β) (h : recombinationRun rec ps ws = some out) (hl : ps.length / 2 ≤ ws.length) :
+    ∃ rs, rs.length = ps.length / 2 ∧ pairResults rec ps ws = rs.map some ∧ out = frame ps rs :=
+  recombinationRun_frame rec ps ws out h hl
+
+/-- Offspring count in terms of the SETTINGS: every pair whose draw is not below the crossover
+probability contributes its two parents, every crossed pair one child (insert-one) or two
+(insert-both); an odd remainder passes through. For all parents, draws and helper witnesses. -/
+theorem offspring_count_by_settings {β W F : Type} [LT F] [DecidableLT F] (pc : F) (both : Bool)
+    (helper : β → β → W → Option (β × β)) (ps : List β) (ws : List (F × W)) (out : List β)
+    (hl : ws.length = ps.length / 2)
+    (h : recombinationRun (gateRecombine pc both helper) ps ws = some out) :
+    out.length = 2 * ws.countP (fun w => !crossedBy w.1 pc) +
+      (if both then 2 else 1) * ws.countP (fun w => crossedBy w.1 pc) + ps.length % 2 :=
+  gate_count pc both helper ps ws out hl h
+
+section Extremes
+variable {F : Type} [Field F] [LinearOrder F] [IsStrictOrderedRing F]
+
+/-- Crossover probability 1 crosses every pair (`n/2` resp. `2·(n/2)` children plus the remainder),
+probability 0 crosses none (the population keeps its size) — for all draws in `[0, 1)`. -/
+theorem offspring_count_extremes {β W : Type} (both : Bool) (helper : β → β → W → Option (β × β))
+    (ps : List β) (ws : List (F × W)) (hl : ws.length = ps.length / 2)
+    (hu : ∀ w ∈ ws, 0 ≤ w.1 ∧ w.1 < 1) (out : List β) :
+    (recombinationRun (gateRecombine (1 : F) both helper) ps ws = some out →
+      out.length = (if both then 2 else 1) * (ps.length / 2) + ps.length % 2) ∧
+    (recombinationRun (gateRecombine (0 : F) both helper) ps ws = some out → out.length = ps.length) := by
+  constructor
+  · intro h
+    have hc := gate_count (1 : F) both helper ps ws out hl h
+    have h1 : ws.countP (fun w => crossedBy w.1 (1 : F)) = ws.length := by
+      rw [List.countP_eq_length]; intro w hw; simp [crossedBy, (hu w hw).2]
+    have h0 : ws.countP (fun w => !crossedBy w.1 (1 : F)) = 0 := by
+      rw [List.countP_eq_zero]; intro w hw; simp [crossedBy, (hu w hw).2]
+    rw [hc, h1, h0, hl]; omega
+  · intro h
+    have hc := gate_count (0 : F) both helper ps ws out hl h
+    have h1 : ws.countP (fun w => crossedBy w.1 (0 : F)) = 0 := by
+      rw [List.countP_eq_zero]; intro w hw; simp [crossedBy, not_lt.mpr (hu w hw).1]
+    have h0 : ws.countP (fun w => !crossedBy w.1 (0 : F)) = ws.length := by
+      rw [List.countP_eq_length]; intro w hw; simp [crossedBy, not_lt.mpr (hu w hw).1]
+    rw [hc, h1, h0, hl]; omega
+
+/-- The insert settings as constructors: `new_insert_single` at probability 1 returns one child per
+pair, `new_insert_both` keeps the population size — whatever flag value `new` would have been given. -/
+theorem insert_constructors_counts {β W : Type} (flag : Bool) (helper : β → β → W → Option (β × β))
+    (ps : List β) (ws : List (F × W)) (hl : ws.length = ps.length / 2)
+    (hu : ∀ w ∈ ws, 0 ≤ w.1 ∧ w.1 < 1) (out : List β) :
+    (recombinationRun (gateRecombine (1 : F) (recCtorBoth .newInsertSingle flag) helper) ps ws = some out →
+      out.length = ps.length / 2 + ps.length % 2) ∧
+    (recombinationRun (gateRecombine (1 : F) (recCtorBoth .newInsertBoth flag) helper) ps ws = some out →
+      out.length = ps.length) := by
+  constructor
+  · intro h
+    have := (offspring_count_extremes false helper ps ws hl hu out).1 h
+    simpa using this
+  · intro h
+    have := (offspring_count_extremes true helper ps ws hl hu out).1 h
+    simp only [if_true] at this; omega
+end Extremes
+
+/-- Generic population statement for a gated crossover whose helper, on parents satisfying `S` and a
+legal witness (`T`), never panics and returns children satisfying `Q`: the run never panics, the
+count follows the settings, and every member of the new population is a parent or such a child. -/
+theorem recombination_population {β W F : Type} [LT F] [DecidableLT F] (pc : F) (both : Bool)
+    (helper : β → β → W → Option (β × β)) (S : β → Prop) (T : W → Prop) (Q : β → β → β → Prop)
+    (hh : ∀ p1 p2 w, S p1 → S p2 → T w → ∃ c1 c2, helper p1 p2 w = some (c1, c2) ∧ Q p1 p2 c1 ∧ Q p1 p2 c2)
+    (ps : List β) (ws : List (F × W)) (hS : ∀ p ∈ ps, S p) (hT : ∀ w ∈ ws, T w.2)
+    (hl : ws.length = ps.length / 2) :
+    ∃ out, recombinationRun (gateRecombine pc both helper) ps ws = some out ∧
+      out.length = 2 * ws.countP (fun w => !crossedBy w.1 pc) +
+        (if both then 2 else 1) * ws.countP (fun w => crossedBy w.1 pc) + ps.length % 2 ∧
+      ∀ c ∈ out, c ∈ ps ∨ ∃ p1 ∈ ps, ∃ p2 ∈ ps, Q p1 p2 c := by
+  have hsome := recombinationRun_isSome (gateRecombine pc both helper) S (fun w => T w.2)
+    (by
+      intro p1 p2 w h1 h2 hw
+      obtain ⟨c1, c2, e, _⟩ := hh p1 p2 w.2 h1 h2 hw
+      unfold gateRecombine; split <;> simp [e]) ps ws hS hT
+  obtain ⟨out, ho⟩ := Option.isSome_iff_exists.mp hsome
+  refine ⟨out, ho, gate_count pc both helper ps ws out hl ho, ?_⟩
+  refine recombinationRun_members (gateRecombine pc both helper) S (fun w => T w.2) Q ?_ ps ws out hS hT ho
+  intro p1 p2 w r h1 h2 hw hr c hc
+  obtain ⟨c1, c2, e, q1, q2⟩ := hh p1 p2 w.2 h1 h2 hw
+  unfold gateRecombine at hr
+  split at hr
+  · simp only [e, Option.map_some, Option.some.injEq] at hr
+    subst hr
+    cases both <;> simp [OptPair.fromPair, emitPair] at hc
+    · subst hc; exact Or.inr (Or.inr q1)
+    · rcases hc with rfl | rfl
+      · exact Or.inr (Or.inr q1)
+      · exact Or.inr (Or.inr q2)
+  · simp only [Option.some.injEq] at hr
+    subst hr
+    simp [emitPair] at hc
+    rcases hc with rfl | rfl
+    · exact Or.inl rfl
+    · exact Or.inr (Or.inl rfl)
+
+/-- Position-wise child of dimension `d`. -/
+def PosWise (d : Nat) (p1 p2 c : List α) : Prop :=
+  c.length = d ∧ ∀ k : Nat, k < d → c[k]? = p1[k]? ∨ c[k]? = p2[k]?
+
+/-- `UniformCrossover` on a whole population of solutions of dimension `d`, for every probability,
+insert setting, draws and masks: never panics, count by settings, every new solution is a parent or
+a position-wise child of dimension `d`. -/
+theorem uniform_crossover_population {F : Type} [LT F] [DecidableLT F] (pc : F) (both : Bool) (d : Nat)
+    (ps : List (List α)) (ws : List (F × List Bool)) (hS : ∀ p ∈ ps, p.length = d)
+    (hT : ∀ w ∈ ws, w.2.length = d) (hl : ws.length = ps.length / 2) :
+    ∃ out, recombinationRun (gateRecombine pc both uniformCrossover) ps ws = some out ∧
+      out.length = 2 * ws.countP (fun w => !crossedBy w.1 pc) +
+        (if both then 2 else 1) * ws.countP (fun w => crossedBy w.1 pc) + ps.length % 2 ∧
+      ∀ c ∈ out, c ∈ ps ∨ ∃ p1 ∈ ps, ∃ p2 ∈ ps, PosWise d p1 p2 c := by
+  refine recombination_population pc both uniformCrossover (fun p => p.length = d) (fun m => m.length = d)
+    (PosWise d) ?_ ps ws hS hT hl
+  intro p1 p2 m h1 h2 hm
+  obtain ⟨c1, c2, e, l1, l2, hk⟩ := uniform_positionwise p1 p2 m (h1.trans h2.symm) (hm.trans h1.symm)
+  refine ⟨c1, c2, e, ⟨l1.trans h1, fun k hk' => ?_⟩, ⟨l2.trans h1, fun k hk' => ?_⟩⟩
+  · have := (hk k (h1 ▸ hk')).1; split at this <;> simp [this]
+  · have := (hk k (h1 ▸ hk')).2; split at this <;> simp [this]
+
+/-- `NPointCrossover` with `1 ≤ n < d` on a whole population (partial: see `npoint_n_out_of_range_violates`). -/
+theorem npoint_crossover_population_partial {F : Type} [LT F] [DecidableLT F] (pc : F) (both : Bool) (n d : Nat)
+    (h1 : 1 ≤ n) (h2 : n < d) (ps : List (List α)) (ws : List (F × List Nat)) (hS : ∀ p ∈ ps, p.length = d)
+    (hT : ∀ w ∈ ws, nPointLegal n d w.2 = true) (hl : ws.length = ps.length / 2) :
+    ∃ out, recombinationRun (gateRecombine pc both multiPointCrossover) ps ws = some out ∧
+      out.length = 2 * ws.countP (fun w => !crossedBy w.1 pc) +
+        (if both then 2 else 1) * ws.countP (fun w => crossedBy w.1 pc) + ps.length % 2 ∧
+      ∀ c ∈ out, c ∈ ps ∨ ∃ p1 ∈ ps, ∃ p2 ∈ ps, PosWise d p1 p2 c := by
+  refine recombination_population pc both multiPointCrossover (fun p => p.length = d)
+    (fun cuts => nPointLegal n d cuts = true) (PosWise d) ?_ ps ws hS hT hl
+  intro p1 p2 cuts e1 e2 hc
+  simp only [nPointLegal, Bool.and_eq_true, beq_iff_eq, allBelow_iff] at hc
+  obtain ⟨⟨hlen, _⟩, hr⟩ := hc
+  have hlen' : cuts.length = n := by omega
+  have hne : cuts ≠ [] := by intro h; rw [h] at hlen'; simp at hlen'; omega
+  obtain ⟨c1, c2, e, l1, l2, _⟩ := multi_point_positionwise p1 p2 cuts (e1.trans e2.symm) hne (by omega)
+    (fun x hx => by have := hr x hx; omega)
+  obtain ⟨d1, d2, e', hk⟩ := multi_point_genes_conserved p1 p2 cuts (e1.trans e2.symm) hne (by omega)
+    (fun x hx => by have := hr x hx; omega)
+  have : (d1, d2) = (c1, c2) := Option.some.inj (e'.symm.trans e)
+  obtain ⟨rfl, rfl⟩ := Prod.mk.inj this
+  refine ⟨d1, d2, e, ⟨l1.trans e1, fun k _ => ?_⟩, ⟨l2.trans e1, fun k _ => ?_⟩⟩
+  · rcases hk k with h | h
+    · exact Or.inl h.1
+    · exact Or.inr h.1
+  · rcases hk k with h | h
+    · exact Or.inr h.2
+    · exact Or.inl h.2
+
+/-- `CycleCrossover` on a population of permutations of one base list: never panics, count by
+settings, every new solution is a parent or a position-wise child that is again a permutation. -/
+theorem cycle_crossover_population [DecidableEq α] {F : Type} [LT F] [DecidableLT F] (pc : F) (both : Bool)
+    (base : List α) (hb : base.Nodup) (ps : List (List α)) (ws : List (F × Unit))
+    (hS : ∀ p ∈ ps, p.Perm base) (hl : ws.length = ps.length / 2) :
+    ∃ out, recombinationRun (gateRecombine pc both (fun p1 p2 _ => cycleCrossover p1 p2)) ps ws = some out ∧
+      out.length = 2 * ws.countP (fun w => !crossedBy w.1 pc) +
+        (if both then 2 else 1) * ws.countP (fun w => crossedBy w.1 pc) + ps.length % 2 ∧
+      ∀ c ∈ out, c ∈ ps ∨ ∃ p1 ∈ ps, ∃ p2 ∈ ps, c.Perm base ∧ PosWise base.length p1 p2 c := by
+  refine recombination_population pc both (fun p1 p2 (_ : Unit) => cycleCrossover p1 p2) (fun p => p.Perm base)
+    (fun _ => True) (fun p1 p2 c => c.Perm base ∧ PosWise base.length p1 p2 c) ?_ ps ws hS (fun _ _ => trivial) hl
+  intro p1 p2 _ e1 e2 _
+  have hn : p1.Nodup := e1.nodup_iff.mpr hb
+  have hp : p1.Perm p2 := e1.trans e2.symm
+  obtain ⟨c1, c2, e, l1, l2, hk, q1, q2⟩ := cycleCrossover_spec p1 p2 hn hp
+  have hl1 : p1.length = base.length := e1.length_eq
+  refine ⟨c1, c2, e, ⟨q1.trans e1, l1.trans hl1, fun k hk' => ?_⟩, ⟨q2.trans e1, l2.trans hl1, fun k hk' => ?_⟩⟩
+  · rcases hk k (hl1 ▸ hk') with h | h
+    · exact Or.inl h.1
+    · exact Or.inr h.1
+  · rcases hk k (hl1 ▸ hk') with h | h
+    · exact Or.inr h.2
+    · exact Or.inl h.2
+
+section ArithPop
+variable {F : Type} [Field F] [LinearOrder F] [IsStrictOrderedRing F]
+
+/-- Convex child of dimension `d`: every coordinate lies between the parental coordinates. -/
+def Convex (d : Nat) (p1 p2 c : List F) : Prop :=
+  c.length = d ∧ ∀ (k : Nat) (a b : F), p1[k]? = some a → p2[k]? = some b →
+    ∃ x, c[k]? = some x ∧ min a b ≤ x ∧ x ≤ max a b
+
+/-- `ArithmeticCrossover` on a whole population, alphas from `Uniform::from(0.0..=1.0)` (legal: in `[0,1]`). -/
+theorem arithmetic_crossover_population (pc : F) (both : Bool) (d : Nat)
+    (ps : List (List F)) (ws : List (F × List F)) (hS : ∀ p ∈ ps, p.length = d)
+    (hT : ∀ w ∈ ws, w.2.length = d ∧ ∀ t ∈ w.2, 0 ≤ t ∧ t ≤ 1) (hl : ws.length = ps.length / 2) :
+    ∃ out, recombinationRun (gateRecombine pc both arithmeticCrossover) ps ws = some out ∧
+      out.length = 2 * ws.countP (fun w => !crossedBy w.1 pc) +
+        (if both then 2 else 1) * ws.countP (fun w => crossedBy w.1 pc) + ps.length % 2 ∧
+      ∀ c ∈ out, c ∈ ps ∨ ∃ p1 ∈ ps, ∃ p2 ∈ ps, Convex d p1 p2 c := by
+  refine recombination_population pc both arithmeticCrossover (fun p => p.length = d)
+    (fun al => al.length = d ∧ ∀ t ∈ al, 0 ≤ t ∧ t ≤ 1) (Convex d) ?_ ps ws hS hT hl
+  intro p1 p2 al e1 e2 hal
+  obtain ⟨c1, c2, e, l1, l2, hk⟩ := arithmetic_convex p1 p2 al (e1.trans e2.symm) (hal.1.trans e1.symm) hal.2
+  refine ⟨c1, c2, e, ⟨l1.trans e1, fun k a b ha hb => ?_⟩, ⟨l2.trans e1, fun k a b ha hb => ?_⟩⟩
+  · have hk1 : k < p1.length := by
+      rcases Nat.lt_or_ge k p1.length with h | h
+      · exact h
+      · rw [List.getElem?_eq_none h] at ha; cases ha
+    obtain ⟨x, y, ex, _, b1, b2, _, _, _⟩ := hk k hk1
+    have ea : p1[k] = a := by rw [List.getElem?_eq_getElem hk1] at ha; exact Option.some.inj ha
+    have eb : p2[k]'((e1.trans e2.symm) ▸ hk1) = b := by
+      rw [List.getElem?_eq_getElem ((e1.trans e2.symm) ▸ hk1)] at hb; exact Option.some.inj hb
+    exact ⟨x, ex, ea ▸ eb ▸ b1, ea ▸ eb ▸ b2⟩
+  · have hk1 : k < p1.length := by
+      rcases Nat.lt_or_ge k p1.length with h | h
+      · exact h
+      · rw [List.getElem?_eq_none h] at ha; cases ha
+    obtain ⟨x, y, _, ey, _, _, b3, b4, _⟩ := hk k hk1
+    have ea : p1[k] = a := by rw [List.getElem?_eq_getElem hk1] at ha; exact Option.some.inj ha
+    have eb : p2[k]'((e1.trans e2.symm) ▸ hk1) = b := by
+      rw [List.getElem?_eq_getElem ((e1.trans e2.symm) ▸ hk1)] at hb; exact Option.some.inj hb
+    exact ⟨y, ey, ea ▸ eb ▸ b3, ea ▸ eb ▸ b4⟩
+end ArithPop
+
+/-! ## Rate-gated mutations on a whole population; parameters read from the state -/
+
+/-- The rate-gated loop keeps the number of individuals and every individual's dimension, for all
+masks and replacement values. -/
+theorem mutation_population_shape (masks : List (List Bool)) (vals pop : List (List α)) :
+    (gatedPop masks vals pop).length = pop.length ∧
+    (gatedPop masks vals pop).map List.length = pop.map List.length :=
+  ⟨gatedPop_length masks vals pop, gatedPop_dims masks vals pop⟩
+
+section Adapted
+variable {F : Type} [Field F] [LinearOrder F] [IsStrictOrderedRing F]
+
+/-- The rate in the STATE governs: once it has been set to 0, every legal execution leaves the whole
+population unchanged and succeeds — whatever rate the constructor was given (even 1, even an
+invalid one), for `NormalMutation` (any accepted strength, adapted or not), `UniformMutation` and
+the rate-only components. -/
+theorem adapted_rate_zero_identity (ctorStrength ctorRate : Param F) (newStrength : Option (Param F))
+    (masks : List (List Bool)) (vals pop : List (List α))
+    (hm : masksLegal (Param.fin (0 : F)) masks pop = true) :
+    (normalStrengthGuard (newStrength.getD ctorStrength) = true →
+      normalRun ctorStrength ctorRate newStrength (some (.fin 0)) masks vals pop = .ok pop) ∧
+    (uniformBoundGuard (newStrength.getD ctorStrength) = .ok () →
+      uniformRun ctorStrength ctorRate newStrength (some (.fin 0)) masks vals pop = .ok pop) ∧
+    rateRun ctorRate (some (.fin 0)) masks vals pop = .ok pop := by
+  have hz : rateIsZero (Param.fin (0 : F)) = true := by simp [rateIsZero]
+  have hid := gatedPop_rate_zero (Param.fin (0 : F)) hz masks vals pop hm
+  have hg : rateGuard (Param.fin (0 : F)) = true := by simp [rateGuard]
+  refine ⟨?_, ?_, ?_⟩
+  · intro hs; simp [normalRun, mutAdapt, mutInit, normalExec, hs, hg, hid]
+  · intro hs; simp [uniformRun, mutAdapt, mutInit, uniformExec, hs, hg, hid]
+  · simp [rateRun, mutAdapt, mutInit, rateExec, hg, hid]
+
+/-- Conversely an adapted rate outside `[0, 1]` (or NaN) makes `execute` return `Err` although the
+constructor's rate was fine, and the constructor's rate is irrelevant once the state was overwritten. -/
+theorem adapted_rate_governs (ctorRate ctorRate' r : Param F) (masks : List (List Bool)) (vals pop : List (List α)) :
+    (rateGuard r = false → rateRun ctorRate (some r) masks vals pop = .err) ∧
+    rateRun ctorRate (some r) masks vals pop = rateRun ctorRate' (some r) masks vals pop ∧
+    rateRun ctorRate none masks vals pop = rateExec ctorRate (gatedPop masks vals pop) := by
+  refine ⟨?_, rfl, rfl⟩
+  intro h; simp [rateRun, mutAdapt, mutInit, rateExec, h]
+
+/-- The "full" constructors (`new_dev`, `new_bound`, `new_full`, `new_uniform_full`) store rate 1:
+every legal mask fires everywhere, so each coordinate receives its replacement value. -/
+theorem full_constructors_replace_everything (half p rate : F) (c : MutCtor)
+    (hc : c = .newDev ∨ c = .newBound ∨ c = .newFull ∨ c = .newUniformFull)
+    (mask : List Bool) (vals sol : List α) (hv : vals.length = sol.length)
+    (hm : maskLegal (rateIsZero (Param.fin (mutCtorParams half c p rate).2))
+      (rateIsOne (Param.fin (mutCtorParams half c p rate).2)) mask sol.length = true) :
+    gated mask vals sol = vals := by
+  have h1 : (mutCtorParams half c p rate).2 = 1 := by rcases hc with rfl | rfl | rfl | rfl <;> rfl
+  rw [h1] at hm
+  have hone : rateIsOne (Param.fin (1 : F)) = true := by simp [rateIsOne]
+  simp only [maskLegal, hone, Bool.not_true, Bool.false_or, Bool.and_eq_true, beq_iff_eq] at hm
+  exact gated_all_true mask vals sol hm.2 (hm.1.1.trans hv.symm) hv
+end Adapted
+
+/-! ## `mutation()`, the default `execute` of `Mutation` implementors -/
+
+/-- When every `mutate` call succeeds, the population is put back with the same number of
+individuals, each being the result of `mutate` on the individual at its index; the rest of the
+stack is untouched. -/
+theorem mutation_default_ok {β : Type} (mutate : β → Option β) (top : List β) (rest : List (List β))
+    (h : ∀ x ∈ top, (mutate x).isSome) :
+    ∃ top', mutationRun mutate (top :: rest) = some (true, top' :: rest) ∧ top'.length = top.length ∧
+      ∀ i (hi : i < top.length), some <$> top'[i]? = some (mutate top[i]) := by
+  obtain ⟨ys, e, l, hk⟩ := mutateAll_total mutate top h
+  exact ⟨ys, by simp [mutationRun, e], l, hk⟩
+
+/-- Observation (outside the wording of C13, the `Err` is the implementor's): on the first failing
+`mutate` the function returns before its `push` — the population is dropped from the stack. -/
+theorem mutation_default_err_drops_population {β : Type} (mutate : β → Option β) (top : List β)
+    (rest : List (List β)) (h : ∃ x ∈ top, mutate x = none) :
+    mutationRun mutate (top :: rest) = some (false, rest) := by
+  simp [mutationRun, mutateAll_none mutate top h]
+
 /-- The legal masks of both DE crossovers are non-empty sets of positions. -/
 example : deBinLegal false false 4 [false, true, false, true] = true := by decide
 example : deExpLegal false false 4 [true, false, false, true] = true := by decide
@@ -442,6 +738,34 @@ example : frame [[100, 101], [200, 201]]
     = [[100, 101], [200, 201]] := by decide
 example : ∀ t ∈ [(1 / 2 : Rat), 3 / 10, 0, 1], 0 ≤ t ∧ t ≤ 1 := by
   intro t ht; simp at ht; rcases ht with rfl | rfl | rfl | rfl <;> norm_num
+
+/-! Population level, adaptation, constructors, `mutation()`: the hypotheses are satisfiable and the runs are not trivial. -/
+example : recombinationRun (gateRecombine (1 : Int) false uniformCrossover) [[1, 2], [3, 4], [5, 6]]
+    [((0 : Int), [true, false])] = some [[3, 2], [5, 6]] := by decide
+example : recombinationRun (gateRecombine (1 : Int) (recCtorBoth .newInsertBoth false) uniformCrossover)
+    [[1, 2], [3, 4], [5, 6]] [((0 : Int), [true, false])] = some [[3, 2], [1, 4], [5, 6]] := by decide
+example : recombinationRun (gateRecombine (0 : Int) true uniformCrossover) [[1, 2], [3, 4], [5, 6]]
+    [((0 : Int), [true, false])] = some [[1, 2], [3, 4], [5, 6]] := by decide
+example : recombinationRun (gateRecombine (1 : Int) true multiPointCrossover) [[1, 2], [3, 4]] [((0 : Int), [])] = none := by
+  decide
+example : recombinationRun (gateRecombine (1 : Int) true (fun p1 p2 (_ : Unit) => cycleCrossover p1 p2))
+    [[0, 1, 2], [1, 0, 2], [2, 1, 0]] [((0 : Int), ())] = some [[0, 1, 2], [1, 0, 2], [2, 1, 0]] := by decide
+example : nPointLegal 1 3 [2] = true ∧ ([0, 1, 2] : List Nat).Nodup ∧ ([1, 0, 2] : List Nat).Perm [0, 1, 2] := by decide
+example : masksLegal (Param.fin (0 : Int)) [[false, false], [false]] [[7, 8], [9]] = true := by decide
+example : masksLegal (Param.fin (1 : Int)) [[true, true], [true]] [[7, 8], [9]] = true := by decide
+example : normalRun (Param.fin (3 : Int)) (Param.fin 1) none (some (.fin 0)) [[false, false]] [[50, 60]] [[7, 8]] =
+    .ok [[7, 8]] := by decide
+example : normalRun (Param.fin (3 : Int)) (Param.fin 0) none (some (.fin 1)) [[true, true]] [[50, 60]] [[7, 8]] =
+    .ok [[50, 60]] := by decide
+example : rateRun (Param.fin (1 : Int)) (some (.fin 2)) [[true]] [[5]] [[7]] = .err := by decide
+example : rateRun (Param.fin (2 : Int)) (some (.fin 1)) [[true]] [[5]] [[7]] = .ok [[5]] := by decide
+example : mutCtorParams (5 : Int) .newFull 7 0 = (7, 1) ∧ mutCtorParams (5 : Int) .newUniformFull 7 0 = (5, 1) ∧
+    mutCtorParams (5 : Int) .newUniform 7 0 = (5, 0) ∧ mutCtorParams (5 : Int) .new 7 0 = (7, 0) := by decide
+example : mutationRun (fun s : List Nat => if s.contains 8 then none else some s.reverse) [[[4, 5], [6, 7]], [[1, 2]]] =
+    some (true, [[[5, 4], [7, 6]], [[1, 2]]]) := by decide
+example : mutationRun (fun s : List Nat => if s.contains 8 then none else some s.reverse) [[[4, 5], [7, 8]], [[1, 2]]] =
+    some (false, [[[1, 2]]]) := by decide
+example : deCrossExec 0 [] ([] : List Nat) [] = none ∧ deCrossExec 2 [true, false] [1, 2] [8, 9] = some [8, 2] := by decide
 
 /-! Non-vacuity of the hypotheses, on concrete inputs. -/
 example : circularSwap [10, 11, 12, 13, 14] [1, 0, 4, 2] = some [11, 12, 14, 13, 10] := by decide
